@@ -125,6 +125,25 @@ int __wrap_unlink(const char *p) {
 }
 #endif
 
+/* ---- deferred observation output ----
+ * The observers below can run in the MIDDLE of a command that is printing its own result line (a seek compaction
+ * triggered by an iterator's read sampling runs inline in the no-thread build): what they print goes to a memory stream
+ * and is written out after the command's RET line (still before the next CALL line, so it belongs to the same call). */
+static FILE *g_defer_fp = NULL; static char *g_defer_buf = NULL; static size_t g_defer_len = 0;
+static FILE *defer_begin(void) {
+  FILE *saved = stdout;
+  if (g_defer_fp == NULL) g_defer_fp = open_memstream(&g_defer_buf, &g_defer_len);
+  if (g_defer_fp != NULL) stdout = g_defer_fp;
+  return saved;
+}
+static void defer_end(FILE *saved) { fflush(stdout); stdout = saved; }
+static void defer_flush(void) {
+  if (g_defer_fp == NULL) return;
+  fclose(g_defer_fp); g_defer_fp = NULL;
+  if (g_defer_len) fwrite(g_defer_buf, 1, g_defer_len, stdout);
+  free(g_defer_buf); g_defer_buf = NULL; g_defer_len = 0;
+}
+
 /* ---- observation of every obsolete-file collection (ldb_remove_obsolete_files) ----
  * The collector calls ldb_versions_add_files(versions, &live) [live already holds pending_outputs], then
  * ldb_get_children, then ldb_remove_file for every name it decided to drop. Printed as
@@ -155,7 +174,9 @@ static void gc_puts(gcbuf_t *b, const char *str) {
 }
 /* the collector needs the live set and the directory listing, in either order: the event is printed when both are there */
 static void gc_emit(const char *order) {
+  FILE *saved = defer_begin();
   printf("%s dir=%s order=%s\n", g_gc_state.p, g_gc_list.len ? g_gc_list.p : ".", order);
+  defer_end(saved);
   g_gc_have_state = g_gc_have_list = 0;
   g_gc_phase = 2;
 }
@@ -195,11 +216,12 @@ int __wrap_ldb_get_children(const char *path, char ***out) {
 }
 int __wrap_ldb_remove_file(const char *filename) {
   if (g_gc_phase == 2) {
-    const char *b = strrchr(filename, '/'); size_t j;
+    const char *b = strrchr(filename, '/'); size_t j; FILE *saved = defer_begin();
     b = b ? b + 1 : filename;
     printf("GCRM ");
     for (j = 0; b[j]; j++) printf("%02x", (unsigned char)b[j]);
     printf("\n");
+    defer_end(saved);
   }
   return __real_ldb_remove_file(filename);
 }
@@ -218,6 +240,8 @@ int __wrap_ldb_versions_apply(ldb_versions_t *vset, ldb_edit_t *edit, ldb_mutex_
   if (g_db != NULL && !ldb_snaplist_empty(&g_db->snapshots))
     snap = ldb_snaplist_oldest(&g_db->snapshots)->sequence;
   rc = __real_ldb_versions_apply(vset, edit, mu);
+  {
+  FILE *saved_out = defer_begin();
   printf("EDIT rc=%d snap=%llx del=", rc, (unsigned long long)snap);
   first = 1;
   rb_set_each(&edit->deleted_files, it) {
@@ -249,6 +273,8 @@ int __wrap_ldb_versions_apply(ldb_versions_t *vset, ldb_edit_t *edit, ldb_mutex_
         free(buf); fclose(f);
       }
     }
+  }
+  defer_end(saved_out);
   }
   return rc;
 }
@@ -575,6 +601,7 @@ int main(int argc, char **argv) {
     } else {
       printf("RET badcmd\n");
     }
+    defer_flush();
     fflush(stdout);
     k3_mark('Z', callno - 1, a[0]);
 #ifndef K3
